@@ -76,7 +76,11 @@ def seeded():
 
 
 def main():
-    asbuilt = read("notes/AS_BUILT.md")
+    # notes/AS_BUILT.md is assembled from notes/as_built/{00_head,C01..C20,ZZ_tail}.md (each section has one owner)
+    secs = sorted(glob.glob(os.path.join(ROOT, "notes", "as_built", "*.md")))
+    asbuilt = "\n".join(open(x).read().rstrip() + "\n" for x in secs)
+    with open(os.path.join(ROOT, "notes", "AS_BUILT.md"), "w") as f:
+        f.write(asbuilt)
     asbuilt = re.sub(r"^# .*\n", "## 5. Per-property machinery (as built)\n", asbuilt, count=1)
     parts = [read("docs/00_head.md").rstrip() + "\n\n" + "## 1. What the technique decides here, and what it cannot\n\n" +
              read("docs/10_technique.md").split("\n", 2)[2] if read("docs/10_technique.md").startswith("## 1") else read("docs/00_head.md") + read("docs/10_technique.md"),
